@@ -90,3 +90,26 @@ def run(ck, prog):
     _run_pre_progress(ck, prog)
     from sa import progress
     progress.run_rule(ck, prog, set(DIMENSION_FILES))
+
+
+# ------------------------------------------------------------------ the solvers' entry conditions on the quantified domain (p < n)
+_run_pre_domain = run
+
+
+def run(ck, prog):
+    _run_pre_domain(ck, prog)
+    # ridge: every design with more rows than columns is fitted (n = p + 1 included), whatever the normalisation setting
+    from sa.e1 import accepts_above
+    from sa.match import Dim
+    accepts_above(ck, prog, r"^linear::ridge_regression::RidgeRegression::<T, M>::fit$", Dim("rows", 1), Dim("cols", 1),
+                  "RidgeRegression::fit: no refusal of a design with n > p")
+    # OLS through QR: the Householder norm takes the sign of the pivot (C01's rule, evaluated here as well: a cancelled
+    # reflector gives NaN coefficients for n = p + 1 designs and for a negative dominant first entry)
+    from props import C01
+    C01.qr_householder_sign(ck, prog)
+
+
+EXPLANATION += (" Domain entry: RidgeRegression::fit refuses no design with n > p (a refusing comparison of the row count with "
+                "cols + c is evaluated as an integer interval; n = p + 1 must pass for every normalisation setting). QR path: "
+                "the Householder norm in qr_mut takes the sign of the diagonal entry (C01's rule).")
+TECHNIQUE += "; accept-side guard rule with affine bounds; sign-source rule for the Householder norm"
